@@ -163,8 +163,10 @@ def validate(ctx, events, mode, name, default=2, policyok=("p1", "p2", "p3")):
     for e in events:
         if e["ev"] in ("reset", "idle"):
             e["files"] = {u: e["files"].get(u, absent) for u in users}
+    events = [dict(e) for e in events]
     for e in events:   # TLC's Json module wants uniform records; nested maps only where read
         e.pop("err", None)
+        e.pop("policyok", None)
         e.pop("seq", None)
         e.pop("ts", None)
         e.pop("checkerr", None)
@@ -253,3 +255,54 @@ def simulated_scenarios(ctx, n, mode="local", cfg="MC_SimAgent.cfg"):
         ctx.inconclusive.append("no simulated behaviours produced by %s (%s)" % (cfg, res["status"]))
     ctx.coverage.setdefault("per_config", {})[cfg] = {"behaviours": len(out), "forced": sum(1 for o in out if o["forced"]), "status": res["status"]}
     return out
+
+
+# ----------------------------------------------------------------------------- grouped validation + post checks
+MODE_NAME = {"local": "local", "": "off"}
+
+
+def judge(ctx, scenarios, results, events, name, default_prop):
+    """Validates every non-hung scenario (grouped by the constants of the trace spec) and applies the
+    per-scenario expectations that are not part of the trace spec. Returns number of validated runs."""
+    groups = {}
+    for r, sc in zip(results, scenarios):
+        if r["hung"]:
+            ctx.violation("C10", "wedge:" + r["where"].replace(" ", "-"), "scenario %s hung: %s" % (r["name"], r["where"]))
+            continue
+        evs = events[r["first"]:r["last"]]
+        reset = evs[0]
+        idle = next((e for e in reversed(evs) if e["ev"] == "idle"), None)
+        mode = MODE_NAME.get(sc["mode"], "remote")
+        key = (mode, tuple(reset.get("policyok") or ("p1", "p2", "p3")), sc.get("default", 2))
+        groups.setdefault(key, []).extend(evs)
+        # ---- expectations outside the trace spec
+        if idle is None:
+            ctx.inconclusive.append("scenario %s produced no idle event" % sc["name"])
+            continue
+        for u, f in idle["files"].items():
+            if f.get("aux") == "other":
+                ctx.violation("C15", "aux-damaged:%s" % sc["name"].split("-")[0], "auxiliary data of %s changed in %s" % (u, sc["name"]))
+        for u, want in (sc.get("expect_idle") or {}).items():
+            got = idle["files"].get(u, {})
+            bad = {k: (got.get(k), v) for k, v in want.items() if got.get(k) != v}
+            if bad:
+                ctx.violation(sc.get("expect_prop", default_prop), sc.get("expect_key", "idle-expectation") ,
+                              "scenario %s: user %s at idle: %s (got, wanted)" % (sc["name"], u, bad))
+        if sc.get("expect_unchanged") and idle.get("dirsha") != reset.get("dirsha"):
+            ctx.violation(sc.get("expect_prop", default_prop), sc.get("expect_key", "directory-changed"),
+                          "scenario %s: the store directory changed byte-wise although it must not" % sc["name"])
+    n = 0
+    for (mode, pol, default), evs in groups.items():
+        n += sum(1 for e in evs if e["ev"] == "reset")
+        ok, tres = validate(ctx, evs, mode, "%s-%s-%s" % (name, mode, "".join(pol)), default=default, policyok=pol)
+        if ok is False:
+            prop, key, detail = classify_rejection(evs, tres, default_prop)
+            i = (tres.get("hwm") or (1, 0))[0] - 1
+            e = evs[i] if 0 <= i < len(evs) else {}
+            if e.get("ev") == "exec" and e.get("k") in ("add", "update", "init") and e.get("ok") and e.get("p") not in pol:
+                prop, key = "C17", "policy-failing-password-stored:%s" % e["k"]
+            elif e.get("ev") == "exec" and e.get("k") in ("add", "update", "init") and not e.get("ok") and e.get("p") in pol \
+                    and "policy" in str(e.get("err", "")):
+                prop, key = "C17", "policy-ok-password-refused:%s" % e["k"]
+            ctx.violation(prop, key, detail)
+    return n
